@@ -70,6 +70,9 @@ struct Prepared {
     tr: astgen::Truth,
     lt: LineTruth,
     out: String,
+    /// known finding KF1 applies: the indentation of the first surviving non-blank line after the
+    /// removed first-line tag is not asserted (index into the list of surviving non-blank lines)
+    kf1_line: Option<usize>,
 }
 
 fn prepare(c: &AstCase, obs: &mut Obs, use_kf1: bool, which: Which) -> Result<Option<Prepared>, Verdict> {
@@ -88,16 +91,24 @@ fn prepare(c: &AstCase, obs: &mut Obs, use_kf1: bool, which: Which) -> Result<Op
         obs.excluded("rendering-does-not-tokenize-as-intended");
         return Ok(None);
     }
-    if use_kf1 && kf1_signature(&r, &tr) {
-        obs.excluded("KF1:first-line-indented-ready-tag");
-        return Ok(None);
-    }
     let lt = line_truth(&r, &tr);
+    let mut kf1_line = None;
+    if use_kf1 && kf1_signature(&r, &tr) {
+        // the residue of the tag's indentation ends up in front of the first surviving non-blank line
+        // after the removed run that starts on line 1
+        let mut l = 0;
+        while l < lt.fate.len() && lt.fate[l] != Fate::Kept {
+            l += 1;
+        }
+        let idx = lt.text.iter().zip(lt.fate.iter()).take(l).filter(|(t, f)| **f == Fate::Kept && !is_blank(t)).count();
+        kf1_line = Some(idx);
+        obs.excluded("KF1:first-line-indented-ready-tag(indentation of one line not asserted)");
+    }
     let out = match call_clean(&r.src, &cfg) {
         Ok(o) => o,
         Err(p) => return Err(Verdict::Fail(format!("clean panicked: {p}\n  src = {:?}", r.src))),
     };
-    Ok(Some(Prepared { r, tr, lt, out }))
+    Ok(Some(Prepared { r, tr, lt, out, kf1_line }))
 }
 
 fn final_newline(c: &AstCase) -> bool {
@@ -186,7 +197,8 @@ pub fn oracle_c12(c: &AstCase, obs: &mut Obs, kf1: bool, counted: bool) -> Verdi
     }
     let exp: Vec<&str> = lt.expected.iter().filter_map(|e| e.as_deref()).filter(|l| !is_blank(l)).collect();
     let got: Vec<&str> = out.split('\n').filter(|l| !is_blank(l)).collect();
-    if exp != got {
+    let same = exp.len() == got.len() && exp.iter().zip(got.iter()).enumerate().all(|(k, (a, b))| if Some(k) == p.kf1_line { a.trim_start_matches([' ', '\t']) == b.trim_start_matches([' ', '\t']) } else { a == b });
+    if !same {
         let k = exp.iter().zip(got.iter()).take_while(|(a, b)| a == b).count();
         vfail!("non-blank output line {k} is {:?}, expected {:?} (inner lines of an unwrapped block move left by min(first inner indent - tag indent, own indent - tag indent), never negative){}", got.get(k), exp.get(k), show(&r.src, out));
     }
@@ -247,7 +259,8 @@ pub fn oracle_c13(c: &AstCase, obs: &mut Obs, kf1: bool, counted: bool) -> Verdi
     let exp: Vec<&str> = lt.text.iter().zip(lt.fate.iter()).filter(|(t, f)| **f == Fate::Kept && !is_blank(t)).map(|(t, _)| t.as_str()).collect();
     let outlines: Vec<&str> = out.split('\n').collect();
     let got: Vec<&str> = outlines.iter().copied().filter(|l| !is_blank(l)).collect();
-    if exp != got {
+    let same = exp.len() == got.len() && exp.iter().zip(got.iter()).enumerate().all(|(k, (a, b))| if Some(k) == p.kf1_line { a.trim_start_matches([' ', '\t']) == b.trim_start_matches([' ', '\t']) } else { a == b });
+    if !same {
         let k = exp.iter().zip(got.iter()).take_while(|(a, b)| a == b).count();
         vfail!("non-blank output lines differ from the surviving non-blank input lines: at index {k} got {:?}, expected {:?}{}", got.get(k), exp.get(k), show(&r.src, out));
     }
